@@ -40,7 +40,7 @@ package state
 // ---- aborting a change without tasks changes nothing Prune looks at -------------------------
 
 //@ func (*Change).abortTasks
-//@   props C09 C01
+//@   props C09 C01 C03
 //@   guard call SetStatus: [table] abortStep(effSt(arg0), arg1)
 //@   ensures [step] forall x *Task :: {x.status} x.status == old(x.status) || abortStep(old(effSt(x)), x.status)
 //@   ensures [waited] forall x *Task :: {x.waitedStatus} x.waitedStatus == old(x.waitedStatus)
